@@ -368,7 +368,7 @@ class Scenario:
         self._run(0)
 
     def call(self, c, verb, prefix, with_func=False, d=0):
-        name = '/' + prefix
+        name = '/' if prefix == 'root' else '/' + prefix      # the spec's prefix "root" is the empty name
 
         async def go():
             try:
@@ -419,7 +419,7 @@ class Scenario:
 
     # ---- projection
     def post(self):
-        return {'cmds': [{'v': c['verb'], 'p': c['prefix'][1:], 'ts': c['ts']} for c in self.cmds],
+        return {'cmds': [{'v': c['verb'], 'p': c['prefix'][1:] or 'root', 'ts': c['ts']} for c in self.cmds],
                 'res': [self.res.get(c, 'none') for c in range(1, self.ncalls + 1)]}
 
     def background_errors(self):
@@ -551,3 +551,30 @@ def fast_dump(module, cfg, workers=4, timeout=1800, tag=None):
         return g
     finally:
         shutil.rmtree(d, ignore_errors=True)
+
+
+def decode_control_parameters(value):
+    """strictly decode the value of a ControlParameters name component -> {field: '=<value>'} (fields present)"""
+    try:
+        tree = T.read_tlv(bytes(value), {CP: {NAME: None, 0x6b: {NAME: None}}})
+    except T.TlvError as e:
+        raise WireError('control-parameters-tlv', str(e))
+    if len(tree) != 1 or tree[0][0] != CP:
+        raise WireError('control-parameters-shape')
+    by_type = {t: (fname, kind) for fname, t, kind in BODY_FIELDS}
+    out = {}
+    for t, v in tree[0][1]:
+        if t not in by_type or by_type[t][0] in out:
+            raise WireError('control-parameters-field', str(t))
+        fname, kind = by_type[t]
+        if kind == 'uint':
+            out[fname] = '=%d' % T.read_uint(v)
+        elif kind == 'text':
+            out[fname] = '=' + bytes(v).decode()
+        elif kind == 'name':
+            out[fname] = '=' + _name_uri(T.read_tlv(v))
+        else:
+            if len(v) != 1 or v[0][0] != NAME:
+                raise WireError('control-parameters-strategy')
+            out[fname] = '=' + _name_uri(T.read_tlv(v[0][1]))
+    return out
